@@ -164,7 +164,8 @@ pub fn encode_ins(a: &mut Asm, i: &Ins, p: &EncParams) {
             a.uint(i.u, p.offset_size()).sleb(i.s);
         }
         Layout::Offset => {
-            a.uint(i.u, p.offset_size());
+            // DW_OP_call_ref / DW_OP_GNU_variable_value: always format-sized
+            a.uint(i.u, if p.d64 { 8 } else { 4 });
         }
         Layout::Wasm => {
             let kind = i.s as u8;
